@@ -11,6 +11,7 @@ package c17
 
 import (
 	"bufio"
+	"context"
 	"fmt"
 	"net"
 	"net/url"
@@ -23,7 +24,10 @@ import (
 	"testing"
 	"time"
 
+	"mosn.io/api"
 	v2 "mosn.io/mosn/pkg/config/v2"
+	"mosn.io/mosn/pkg/types"
+	"mosn.io/pkg/variable"
 	"pgregory.net/rapid"
 
 	"verif/ev"
@@ -744,18 +748,25 @@ func tryTimeoutCase(rt *rapid.T) {
 	perm := rapid.Permutation([]int{0, 1}).Draw(rt, "assignment")
 	hasRouteTry := rapid.Bool().Draw(rt, "routeTryTimeout")
 	hasHdrTry := rapid.Bool().Draw(rt, "headerTryTimeout")
-	global := rapid.SampledFrom([]string{"default", "default", "route", "header"}).Draw(rt, "globalSource") // where set: 2 s
+	// "variable": what a protocol that carries its own timeout (bolt's frame field) or a stream filter supplies - the
+	// request-context variables proxy_global_timeout / proxy_try_timeout, set here by a harness filter; a variable wins over
+	// the header, the header over the route, for EACH of the two timeouts on its own
+	global := rapid.SampledFrom([]string{"default", "default", "route", "header", "variable", "variable"}).Draw(rt, "globalSource") // where set: 2 s
+	hasVarTry := rapid.IntRange(0, 3).Draw(rt, "variableTryTimeout") == 0
 	routeTry, hdrTry := tryCand[perm[0]], tryCand[perm[1]]
+	varTry := routeTry
 	want := -1
 	switch {
+	case hasVarTry:
+		want = perm[0]
 	case hasHdrTry:
 		want = perm[1]
 	case hasRouteTry:
 		want = perm[0]
 	}
-	desc := fmt.Sprintf("Http1: retry_on num_retries=1, route retry_timeout %v (set=%v), x-mosn-try-timeout %v (set=%v), global timeout from %s, first attempt stalls", routeTry, hasRouteTry, hdrTry, hasHdrTry, global)
+	desc := fmt.Sprintf("Http1: retry_on num_retries=1, route retry_timeout %v (set=%v), x-mosn-try-timeout %v (set=%v), variable proxy_try_timeout %v (set=%v), global timeout from %s, first attempt stalls", routeTry, hasRouteTry, hdrTry, hasHdrTry, varTry, hasVarTry, global)
 	srcs := 0
-	for _, b := range []bool{hasRouteTry, hasHdrTry} {
+	for _, b := range []bool{hasRouteTry, hasHdrTry, hasVarTry} {
 		if b {
 			srcs++
 		}
@@ -780,6 +791,9 @@ func tryTimeoutCase(rt *rapid.T) {
 		if global == "route" {
 			o.Timeout = 2 * time.Second
 		}
+		if global == "variable" || hasVarTry {
+			o.StreamFilters = []v2.Filter{{Type: varFilterType, Config: map[string]interface{}{}}}
+		}
 		cs, err := mesh.NewCaseBound(o)
 		if err != nil {
 			rt.Skip("rig: " + err.Error())
@@ -791,6 +805,12 @@ func tryTimeoutCase(rt *rapid.T) {
 		}
 		if global == "header" {
 			hdr = append(hdr, [2]string{"x-mosn-global-timeout", "2000"})
+		}
+		if global == "variable" {
+			hdr = append(hdr, [2]string{varGlobalHdr, "2000"})
+		}
+		if hasVarTry {
+			hdr = append(hdr, [2]string{varTryHdr, strconv.Itoa(int(varTry / time.Millisecond))})
 		}
 		t0 := time.Now()
 		res := do1(cs.Addr, "GET", "/tt", "h.example", hdr, waitDeadline)
@@ -1221,4 +1241,36 @@ func retryOverflowCase(rt *rapid.T) {
 	if len(hosts) >= 1 {
 		ev.Class(partE2E, "retry-overflow:overflow-after-a-retryable-answer")
 	}
+}
+
+// ---- the filter that plays a protocol (or filter) supplying timeouts of its own through the request-context variables
+
+const (
+	varFilterType = "c17_timeout_variables"
+	varGlobalHdr  = "x-set-var-global-timeout"
+	varTryHdr     = "x-set-var-try-timeout"
+)
+
+func init() {
+	api.RegisterStream(varFilterType, func(map[string]interface{}) (api.StreamFilterChainFactory, error) { return varFactory{}, nil })
+}
+
+type varFactory struct{}
+
+func (varFactory) CreateFilterChain(ctx context.Context, cb api.StreamFilterChainFactoryCallbacks) {
+	cb.AddStreamReceiverFilter(varFilter{}, api.BeforeRoute)
+}
+
+type varFilter struct{}
+
+func (varFilter) OnDestroy()                                              {}
+func (varFilter) SetReceiveFilterHandler(api.StreamReceiverFilterHandler) {}
+func (varFilter) OnReceive(ctx context.Context, headers api.HeaderMap, buf api.IoBuffer, trailers api.HeaderMap) api.StreamFilterStatus {
+	if v, ok := headers.Get(varGlobalHdr); ok {
+		_ = variable.SetString(ctx, types.VarProxyGlobalTimeout, v)
+	}
+	if v, ok := headers.Get(varTryHdr); ok {
+		_ = variable.SetString(ctx, types.VarProxyTryTimeout, v)
+	}
+	return api.StreamFilterContinue
 }
